@@ -287,6 +287,42 @@ def params_for(fam, rng, extra):
 # ------------------------------------------------------------------------------------------------
 def _coverage_predicates(ctx, p, scale):
     rng = ctx.rng
+    import importlib
+    JW = importlib.import_module('prysm.polynomials.jacobi')
+    # call histories: float32 / integer / 2-D calls first, then the float64 call that is checked against the textbook value
+    for fam, (impl, drv, (lo, hi), maxn, exact) in FAMS.items():
+        plist = params_for(fam, rng, 0)
+        for n in (2, 5, 9) if fam != 'qbfs' else (2, 3):
+            k = plist[n % len(plist)]
+            pts = dyadic(rng, lo, hi, (4,))
+            if fam.startswith('cheby'):
+                pts = np.clip(pts, -63 / 64, 63 / 64)
+            tb = [textbook(fam, n, k, Fr(float(x))) for x in pts]
+            if tb[0] is None:
+                continue
+            case = {'family': fam, 'order': n, 'params': list(k), 'points': pts.tolist(), 'history': ['float32', 'int', 'float32 2-D', 'float64']}
+            ctx.case(f'history:{fam}', case, nontrivial=True, tag='dtype switches')
+
+            def hist():
+                impl(p, n, k, pts.astype(np.float32))
+                impl(p, n, k, np.asarray(np.round(pts), dtype='int64'))
+                impl(p, n, k, np.resize(pts, (2, 3)).astype(np.float32))
+                return impl(p, n, k, pts)
+            out = _try(ctx, f'history:{fam}', case, hist)
+            if out is not _FAILED and not close(out, tb, 1e-8 if fam == 'lag' else TOL):
+                ctx.pred_fail(f'history:{fam}', case, f'{fam}({n}) on float64 points after float32 / integer calls of the same order: '
+                              f'{np.asarray(out).tolist()} but the textbook value is {tb}')
+    # the weight function the library reports for the Jacobi family, against (1-x)^alpha (1+x)^beta
+    for (a, b) in JAC_PARAMS + [(0.0, float(m)) for m in range(1, 7)] + [(float(np.round(rng.uniform(-0.9, 3) * 8) / 8), float(np.round(rng.uniform(-0.9, 3) * 8) / 8)) for _ in range(scale(4, 40))]:
+        for lay, x in (('1d', np.clip(dyadic(rng, -1, 1, (6,)), -63 / 64, 63 / 64)), ('2d', np.clip(dyadic(rng, -1, 1, (3, 4)), -63 / 64, 63 / 64)),
+                       ('scalar', float(np.clip(dyadic(rng, -1, 1, ()), -63 / 64, 63 / 64))), ('float32', np.clip(dyadic(rng, -1, 1, (5,)), -63 / 64, 63 / 64).astype(np.float32))):
+            case = {'family': 'weight', 'params': [a, b], 'layout': lay, 'points': np.asarray(x, dtype=float).ravel().tolist()[:6]}
+            ctx.case('textbook:jacobi-weight', case, nontrivial=a != b, tag=lay)
+            out = _try(ctx, 'textbook:jacobi-weight', case, lambda: JW.weight(a, b, x))
+            xx = np.asarray(x, dtype=float)
+            want = (1 - xx) ** a * (1 + xx) ** b
+            if out is not _FAILED and (np.shape(out) != np.shape(x) or not close(out, want, 2e-5 if lay == 'float32' else TOL)):
+                ctx.pred_fail('textbook:jacobi-weight', case, f'weight({a}, {b}, x) = {np.asarray(out).ravel()[:3].tolist()} but (1-x)^alpha (1+x)^beta = {want.ravel()[:3].tolist()}')
     for fam, (impl, drv, (lo, hi), maxn, exact) in FAMS.items():
         plist = params_for(fam, rng, 0)
         for n in range(0, min(maxn, scale(9, 25)) + 1):
@@ -640,8 +676,16 @@ def _orthogonality(ctx, p):
     N = ctx.scale(12, 26)
     nodes = N + 2
     # Jacobi family under (1-x)^a (1+x)^b, including Legendre and the four Chebyshev kinds
-    for (a, b) in JAC_PARAMS if ctx.thorough else JAC_PARAMS[:8]:
-        x, w = sp.roots_jacobi(nodes, a, b)
+    import importlib
+    JW = importlib.import_module('prysm.polynomials.jacobi')
+    for (a, b) in JAC_PARAMS if ctx.thorough else JAC_PARAMS[:8] + [(0.0, 2.0), (0.0, 3.0), (0.25, -0.25)]:
+        # quadrature with the weight THE LIBRARY reports (prysm.polynomials.jacobi.weight): a Gauss-Jacobi rule for the base exponents
+        # a0 = a - ceil(a), b0 = b - ceil(b) in (-1, 0]; the remaining factor weight(a,b,x) / ((1-x)^a0 (1+x)^b0) is a polynomial of degree
+        # ceil(a) + ceil(b) when the library's weight is (1-x)^a (1+x)^b, so the rule stays exact in the degree
+        ka, kb = math.ceil(a), math.ceil(b)
+        a0, b0 = a - ka, b - kb
+        x, w0 = sp.roots_jacobi(nodes + (ka + kb + 1) // 2 + 1, a0, b0)
+        w = w0 * JW.weight(a, b, x) / ((1 - x) ** a0 * (1 + x) ** b0)
         V = np.array([p.jacobi(n, a, b, x) for n in range(N + 1)])
         G = (V * w) @ V.T
         lg = math.lgamma
@@ -658,9 +702,11 @@ def _orthogonality(ctx, p):
         if np.abs(E).max() > 1e-9:
             i, j = np.unravel_index(np.abs(E).argmax(), E.shape)
             ctx.pred_fail('ortho:jacobi', {'alpha': a, 'beta': b, 'n': int(i), 'm': int(j)},
-                          f'normalised Gram entry deviates from delta by {E[i, j]:.3e} under the weight (1-x)^a (1+x)^b')
+                          f'normalised Gram entry deviates from delta by {E[i, j]:.3e} under the weight prysm.polynomials.jacobi.weight(a, b, x)')
     for kind, (a, b) in {1: (-.5, -.5), 2: (.5, .5), 3: (-.5, .5), 4: (.5, -.5)}.items():
-        x, w = sp.roots_jacobi(nodes, a, b)
+        ka, kb = math.ceil(a), math.ceil(b)
+        x, w0 = sp.roots_jacobi(nodes + 2, a - ka, b - kb)
+        w = w0 * JW.weight(a, b, x) / ((1 - x) ** (a - ka) * (1 + x) ** (b - kb))
         V = np.array([getattr(p, f'cheby{kind}')(n, x) for n in range(N + 1)])
         G = (V * w) @ V.T
         d = np.sqrt(np.diag(G))
@@ -895,7 +941,7 @@ def replay(inp):
         for f in bad[:3]:
             print(f['detail'])
         return bool(bad)
-    if inp.get('item', '').startswith(('dtype:', 'textbook:xy-meshgrid', 'textbook:hopkins-arrayH', 'textbook:q2d-azimuth')):
+    if inp.get('item', '').startswith(('dtype:', 'history:', 'textbook:jacobi-weight', 'textbook:xy-meshgrid', 'textbook:hopkins-arrayH', 'textbook:q2d-azimuth')):
         sub = C.Ctx('C07', 'quick', 0)
         _coverage_predicates(sub, p, sub.scale)
         bad = [f for f in sub.pred_failures if f['item'] == inp['item']]
